@@ -18,13 +18,14 @@ def storage_modes(tier):
     try:
         src = os.path.join(d, 'script.py')
         open(src, 'w').close()
-        df = pd.DataFrame({'flow_1': [0.5, 1.25, -3.0], 'n-2': [1, 2, 3], 'name x': ['a', 'b c', 'd']})
+        TXT = ['gauge #12, "left" bank', '#410001', 'k: v']     # commas, quotes, colons, hashes (also leading)
+        df = pd.DataFrame({'flow_1': [0.5, 1.25, -3.0], 'n-2': [1, 2, 3], 'name x': TXT})
         comment = {'station': 'ab:12 : x', 'note': 'n'}
         def check(tag, data, com):
             out.append(('columns[%s]' % tag, list(data.columns) == list(df.columns), dict(mode=tag, got=list(map(str, data.columns)))))
             out.append(('rows[%s]' % tag, len(data) == len(df), dict(mode=tag)))
             out.append(('values[%s]' % tag, bool(np.allclose(data['flow_1'].values, df['flow_1'].values, atol=1e-5)) and
-                        list(data['n-2']) == [1, 2, 3] and list(data['name x']) == ['a', 'b c', 'd'], dict(mode=tag)))
+                        list(data['n-2']) == [1, 2, 3] and list(data['name x']) == TXT, dict(mode=tag, got=list(map(str, data['name x'])))))
             out.append(('comments[%s]' % tag, com.get('station') == 'ab:12 : x' and com.get('note') == 'n' and com.get('nrow') == '3' and
                         com.get('ncol') == '3', dict(mode=tag, got={k: com.get(k) for k in ('station', 'note', 'nrow', 'ncol')})))
         for tag, name, compress in (('plain', 'p.csv', False), ('zip:name.csv', 'a.csv', True), ('zip:name.zip', 'c.zip', True),
